@@ -617,3 +617,4 @@ Proof.
   rewrite (pl_roundtrip _ _ _ r (participant_unbuild r) (participant_table_ok r Hf) (participant_rows r Hw)).
   unfold wf_participant in Hw. split_wf Hw. destruct r; cbn in *. subst. reflexivity.
 Qed.
+
